@@ -68,6 +68,8 @@ impl ChronyOperations for ClockErrorBoundPoller {
         // call will return almost right away.
         let options = ClientOptions::default();
 
+        #[cfg(clock_bound_verif)]
+        let blocking_query_uds = crate::verif_hooks::scripted_query;
         match blocking_query_uds(request_body, options) {
             Err(e) => {
                 error!("No reply from chronyd. Is it running? Error: {:?}", e);
@@ -113,6 +115,10 @@ fn run_clock_error_bound_poller(
 
     // Keep on running forever until we receive the instruction to stop.
     while keep_running {
+        #[cfg(clock_bound_verif)]
+        if crate::verif_hooks::point("poller:top") {
+            return;
+        }
         // First, make sure we take a MONOTONIC timestamp *before* getting chronyd data. This will
         // slightly inflate the dispersion component of the clock error bound but better be
         // pessimistic and correct, than greedy and wrong. The actual error added here is expected
@@ -125,6 +131,10 @@ fn run_clock_error_bound_poller(
             Ok(as_of) => {
                 // If polling is successful, pass the tracking data and monotonic timestamp to the
                 // shm writer. Otherwise signal chrony is not responding.
+                #[cfg(clock_bound_verif)]
+                if crate::verif_hooks::point("poller:query") {
+                    return;
+                }
                 let message = match poller.get_tracking() {
                     Some(tracking) => match &phc_info {
                         Some(phc_info) if phc_info.refid == tracking.ref_id => {
@@ -154,6 +164,10 @@ fn run_clock_error_bound_poller(
                     }
                 };
 
+                #[cfg(clock_bound_verif)]
+                if crate::verif_hooks::point("poller:send") {
+                    return;
+                }
                 match ctx.dbox.send(&ChannelId::ShmWriter, message) {
                     Ok(()) => (),
                     Err(_) => {
@@ -172,6 +186,10 @@ fn run_clock_error_bound_poller(
         // would hit chronyd at the same pace. In the current implementation, this is not happening
         // since only the Abort message is meant to be sent to the chronyd polling thread. However,
         // should improve on this to make it robust by having a more dynamic sleep time.
+        #[cfg(clock_bound_verif)]
+        if crate::verif_hooks::point("poller:wait") {
+            return;
+        }
         match ctx.mbox.recv_timeout(sleep) {
             Ok(Message::ThreadAbort) => {
                 info!("Received message to stop polling chronyd");
@@ -187,6 +205,10 @@ fn run_clock_error_bound_poller(
 /// Entry point to this thread.
 pub fn run(ctx: Context, phc_info: Option<PhcInfo>) {
     info!("Starting chronyd polling thread");
+    #[cfg(clock_bound_verif)]
+    if crate::verif_hooks::point("poller:start") {
+        return;
+    }
     let poller = ClockErrorBoundPoller::default();
     let sleep = Duration::from_millis(1000);
     run_clock_error_bound_poller(ctx, poller, phc_info, sleep);
@@ -206,6 +228,21 @@ fn get_phc_error_bound_from_path(
         .trim()
         .parse::<i64>()
         .expect("Could not parse error bound value to i64"))
+}
+
+/// Wrappers exposing this module's private items to an external verification harness.
+#[cfg(clock_bound_verif)]
+pub mod verif {
+    use super::*;
+
+    /// Run the real polling loop with the real `ClockErrorBoundPoller`.
+    pub fn run_poller(ctx: Context, phc_info: Option<PhcInfo>, sleep: Duration) {
+        run_clock_error_bound_poller(ctx, ClockErrorBoundPoller::default(), phc_info, sleep)
+    }
+
+    pub fn get_phc_error_bound(path: &std::path::Path) -> Result<i64, std::io::Error> {
+        get_phc_error_bound_from_path(path)
+    }
 }
 
 #[cfg(test)]
